@@ -569,7 +569,15 @@ func Build(p Prog, seed int64, failSlot int, failWhen string, tmpdir string) (*B
 		m.SetMIMEVersion(mail.MIME10)
 	}
 	b := &Built{Msg: m, HdrWant: map[string]string{}, SetErr: []string{}, Slots: []Slot{}, Broken: &Broken{}}
-	if err := m.From("sender@from.test"); err != nil {
+	envOnly := false
+	for _, h := range p.Hdrs {
+		envOnly = envOnly || h.Setter == "envonly"
+	}
+	if envOnly { // no From address: the envelope-from stands in for it in the rendering
+		if err := m.EnvelopeFrom("sender@from.test"); err != nil {
+			return nil, err
+		}
+	} else if err := m.From("sender@from.test"); err != nil {
 		return nil, err
 	}
 	if err := m.To("rcpt@to.test"); err != nil {
@@ -627,11 +635,7 @@ func Build(p Prog, seed int64, failSlot int, failWhen string, tmpdir string) (*B
 		case "genmultiempty": // ... one of them empty, and not the last
 			m.SetGenHeader(mail.Header("X-Verif-Multi"), "alpha", "", v, "omega")
 			names["X-Verif-Multi"] = true
-		case "envonly": // no From address: the envelope-from stands in for it in the rendering
-			m.SetAddrHeaderIgnoreInvalid(mail.HeaderFrom)
-			if err := m.EnvelopeFrom("sender@from.test"); err != nil {
-				b.SetErr = append(b.SetErr, "envonly")
-			}
+		case "envonly": // (handled where the sender is set)
 		case "genmulti": // a generic header with several values
 			m.SetGenHeader(mail.Header("X-Verif-Multi"), v, "second value", v)
 			names["X-Verif-Multi"] = true
